@@ -73,7 +73,7 @@ func generate(prop, tier string, rng *Rng) []Case {
 	case "C08":
 		return genC08(tier, rng)
 	case "C15":
-		return genRangeUnit(tier)
+		return append(genRangeUnit(tier), genC15Hist(tier, rng)...)
 	case "C06":
 		return genRecompUnit()
 	case "C07":
